@@ -5,8 +5,9 @@
    * backend (otter) = finite map key -> (entry pointer, expiry); the environment may drop any binding at
      any time (size eviction, expiry, explicit delete); a dropped or replaced entry is handed to the
      deletion listener (= releaseEntry) at any LATER time (otter calls it from its worker goroutine).
-   * entries are recycled through cacheEntryPool: releaseEntry clears the entry under its write lock and
-     puts it into the pool; Store takes an entry from the pool (or a fresh one), fills it under the write
+   * entries are recycled through cacheEntryPool: releaseEntry(key, entry) clears the entry under its write
+     lock and puts it into the pool — unless the entry no longer carries that key (otter v1.2.0 reports an
+     expired-then-replaced node twice; [LNotify] lets the backend repeat or invent ANY notification); Store takes an entry from the pool (or a fresh one), fills it under the write
      lock and publishes it with backend.Set / SetIfAbsent.  A reader that obtained the pointer before the
      eviction may therefore lock an entry that meanwhile belongs to another key.
    * Get = backend lookup; TryRLock; (e.v == nil || e.k != k) -> miss; copy e.v; RUnlock.
@@ -60,8 +61,8 @@ Record state := mkState {
   nent : nat;                   (* entries allocated so far (fresh ids are >= nent) *)
   free : list nat;              (* cacheEntryPool *)
   issued : list nat;            (* taken from the pool, Store's Lock not yet acquired (a waiting writer) *)
-  pend : list nat;              (* dropped from the backend, releaseEntry's Lock not yet acquired *)
-  relw : list nat;              (* releaseEntry holds the write lock *)
+  pend : list (list N * nat);   (* deletion notifications (key, entry) whose releaseEntry has not yet locked *)
+  relw : list (list N * nat);   (* releaseEntry(key, entry) holds the write lock *)
   relc : list nat;              (* cleared and unlocked, not yet put into the pool *)
   thr : nat -> pc;
   nthr : nat;
@@ -78,8 +79,9 @@ Inductive label :=
 | LGet (k : list N)                             (* a new goroutine calls Get *)
 | LStep (t : nat) (choice : option nat)         (* goroutine t performs its next atomic action *)
 | LEvict (i : nat)                              (* the backend drops its i-th binding *)
-| LRelLock (e : nat)                            (* releaseEntry(e): e.l.Lock() *)
-| LRelClear (e : nat)                           (* ... e.k = ""; e.v = nil; e.l.Unlock() *)
+| LNotify (k : list N) (e : nat)                (* otter invokes the deletion listener for (k, e) once more *)
+| LRelLock (k : list N) (e : nat)               (* releaseEntry(k, e): e.l.Lock() *)
+| LRelClear (k : list N) (e : nat)              (* ... e.k != k: Unlock, return | e.k = ""; e.v = nil; Unlock *)
 | LRelPut (e : nat)                             (* ... cacheEntryPool.Put(e) *)
 | LTick (d : N)                                 (* real time advances *)
 | LSync (c : N).                                (* the backend clock is refreshed *)
@@ -94,13 +96,13 @@ Definition with_ent (s : state) (e : nat) (x : entry) : state :=
 Definition with_ev (s : state) (ev : event) : state :=
   mkState (backend s) (ents s) (nent s) (free s) (issued s) (pend s) (relw s) (relc s)
           (thr s) (nthr s) (now s) (bclk s) (ev :: trace s).
-Definition with_backend (s : state) (b : list binding) (pd : list nat) : state :=
+Definition with_backend (s : state) (b : list binding) (pd : list (list N * nat)) : state :=
   mkState b (ents s) (nent s) (free s) (issued s) pd (relw s) (relc s)
           (thr s) (nthr s) (now s) (bclk s) (trace s).
 Definition with_pool (s : state) (n : nat) (fr iss : list nat) : state :=
   mkState (backend s) (ents s) n fr iss (pend s) (relw s) (relc s)
           (thr s) (nthr s) (now s) (bclk s) (trace s).
-Definition with_rel (s : state) (fr pd rw rc : list nat) : state :=
+Definition with_rel (s : state) (fr : list nat) (pd rw : list (list N * nat)) (rc : list nat) : state :=
   mkState (backend s) (ents s) (nent s) fr (issued s) pd rw rc
           (thr s) (nthr s) (now s) (bclk s) (trace s).
 Definition with_time (s : state) (n c : N) : state :=
@@ -112,6 +114,13 @@ Definition spawn (s : state) (p : pc) : state :=
 
 Definition rem (e : nat) (l : list nat) : list nat := remove Nat.eq_dec e l.
 Definition mem (e : nat) (l : list nat) : bool := existsb (Nat.eqb e) l.
+Definition same2 (k : list N) (e : nat) (p : list N * nat) : bool := list_eqb k (fst p) && Nat.eqb e (snd p).
+Definition mem2 (k : list N) (e : nat) (l : list (list N * nat)) : bool := existsb (same2 k e) l.
+Definition rem2 (k : list N) (e : nat) (l : list (list N * nat)) : list (list N * nat) :=
+  filter (fun p => negb (same2 k e p)) l.
+(* every pair about entry e (the write lock has one holder, so there is at most one) *)
+Definition rem_e (e : nat) (l : list (list N * nat)) : list (list N * nat) :=
+  filter (fun p => negb (Nat.eqb e (snd p))) l.
 Fixpoint drop_nth {A} (i : nat) (l : list A) : list A :=
   match l, i with
   | [], _ => []
@@ -167,7 +176,7 @@ Definition step_thread (s : state) (t : nat) (choice : option nat) : option stat
     | Some _ =>
       if nx then Some (with_thr s t Idle)                 (* SetIfAbsent: the new entry is simply dropped *)
       else Some (with_thr (with_backend s (nb :: others k (backend s))
-                                        (map b_e (same k (backend s)) ++ pend s)) t Idle)
+                                        (map (fun b => (b_k b, b_e b)) (same k (backend s)) ++ pend s)) t Idle)
     | None => Some (with_thr (with_backend s (nb :: backend s) (pend s)) t Idle)
     end
   | GLook k =>
@@ -185,7 +194,7 @@ Definition step_thread (s : state) (t : nat) (choice : option nat) : option stat
       | Some _ => Some (with_ev (with_thr s t Idle) (EvMiss k))      (* a writer holds the lock *)
       end
     | Some _ =>                                                       (* a writer is waiting for the lock *)
-      if mem e (pend s) || mem e (issued s)
+      if mem e (map snd (pend s)) || mem e (issued s)
       then Some (with_ev (with_thr s t Idle) (EvMiss k)) else None
     end
   | GCheck k e =>
@@ -215,20 +224,25 @@ Definition step (s : state) (l : label) : option state :=
   | LStep t c => step_thread s t c
   | LEvict i =>
     match nth_error (backend s) i with
-    | Some b => Some (with_backend s (drop_nth i (backend s)) (b_e b :: pend s))
+    | Some b => Some (with_backend s (drop_nth i (backend s)) ((b_k b, b_e b) :: pend s))
     | None => None
     end
-  | LRelLock e =>
+  | LNotify k e => Some (with_backend s (backend s) ((k, e) :: pend s))
+  | LRelLock k e =>
     let x := ents s e in
-    if mem e (pend s) && unlocked x
+    if mem2 k e (pend s) && unlocked x
     then Some (with_rel (with_ent s e (mkEntry (e_k x) (e_v x) (Some OwnRel) (e_r x)))
-                        (free s) (rem e (pend s)) (e :: relw s) (relc s))
+                        (free s) (rem2 k e (pend s)) ((k, e) :: relw s) (relc s))
     else None
-  | LRelClear e =>
+  | LRelClear k e =>
     let x := ents s e in
-    if mem e (relw s)
-    then Some (with_rel (with_ent s e (mkEntry [] None None (e_r x)))
-                        (free s) (pend s) (rem e (relw s)) (e :: relc s))
+    if mem2 k e (relw s)
+    then if list_eqb (e_k x) k
+         then Some (with_rel (with_ent s e (mkEntry [] None None (e_r x)))
+                             (free s) (pend s) (rem_e e (relw s)) (e :: relc s))
+         else (* already released, or re-issued for another key: leave it alone *)
+              Some (with_rel (with_ent s e (mkEntry (e_k x) (e_v x) None (e_r x)))
+                             (free s) (pend s) (rem_e e (relw s)) (relc s))
     else None
   | LRelPut e =>
     if mem e (relc s)
@@ -283,7 +297,7 @@ Fixpoint index_b (k : list N) (b : list binding) : option (nat * nat) :=
 Definition big_evict (k : list N) (s : state) : option state :=
   match index_b k (backend s) with
   | None => Some s
-  | Some (i, e) => run [LEvict i; LRelLock e; LRelClear e; LRelPut e] s
+  | Some (i, e) => run [LEvict i; LRelLock k e; LRelClear k e; LRelPut e] s
   end.
 
 (* real time passes; the clock is refreshed as late as its contract allows (worst case for hits is the
@@ -309,21 +323,21 @@ Definition big_race (phase : nat) (k k2 v2 : list N) (s : state) : option state 
       match thr s2 t, index_b k (backend s2) with
       | GTry _ e, Some (i, _) =>
         match phase with
-        | 0 => match run [LEvict i; LRelLock e] s2 with
+        | 0 => match run [LEvict i; LRelLock k e] s2 with
                | Some s3 => match drive 8 t s3 with
-                            | Some s4 => run [LRelClear e; LRelPut e] s4
+                            | Some s4 => run [LRelClear k e; LRelPut e] s4
                             | None => None
                             end
                | None => None
                end
-        | 1 => match run [LEvict i; LRelLock e; LRelClear e] s2 with
+        | 1 => match run [LEvict i; LRelLock k e; LRelClear k e] s2 with
                | Some s3 => match drive 8 t s3 with
                             | Some s4 => run [LRelPut e] s4
                             | None => None
                             end
                | None => None
                end
-        | _ => match run [LEvict i; LRelLock e; LRelClear e; LRelPut e] s2 with
+        | _ => match run [LEvict i; LRelLock k e; LRelClear k e; LRelPut e] s2 with
                | Some s3 => match big_store k2 v2 3600000 false s3 with
                             | Some s4 => drive 8 t s4
                             | None => None
